@@ -158,6 +158,8 @@ def rv_regs_in(op):
 
 def rv_defuse(i):
     mn, ops = i.mnem, i.ops
+    if mn == '<unknown>' and i.size == 4 and i.raw == 0x0000000b:
+        return [], [], 'alu'        # the opaque word core.obj('rvv') puts in place of a Zvkned instruction: vector registers only
     if mn in ('<unknown>', 'c.unimp', 'unimp') or mn.startswith('.'):
         return [], [], 'data'
     if mn in RV_BR:
@@ -606,3 +608,47 @@ def upward_uses(prog, start, limit=4000):
             continue
         a = prog.nxt(i)
     return uses
+
+
+def disasm_words(ctx, words, march='rv64gcv'):
+    """(size, value) pairs -> instruction records with definitions / uses, through the same assembler / disassembler path as the static runtime"""
+    import hashlib
+    import os
+    import subprocess
+    key = hashlib.sha256(repr((words, march)).encode()).hexdigest()[:16]
+    d = os.path.join(ctx.cdir, 'words_' + key)
+    os.makedirs(d, exist_ok=True)
+    dis = os.path.join(d, 'dis.txt')
+    if not os.path.exists(dis):
+        src = os.path.join(d, 'w.s')
+        with open(src, 'w') as fh:
+            fh.write('\t.text\n')
+            for sz, v in words:
+                fh.write('\t.%s %#x\n' % ('word' if sz == 4 else 'half', v))
+        o = os.path.join(d, 'w.o')
+        r = subprocess.run(['clang', '--target=riscv64-linux-gnu', '-march=' + march, '-c', src, '-o', o], stdout=subprocess.PIPE, stderr=subprocess.PIPE, text=True)
+        if r.returncode:
+            raise AnalysisBroken('rtasm: could not assemble emitted words: %s' % r.stderr[-200:])
+        r = subprocess.run(['llvm-objdump-14', '-d', '--mattr=+m,+a,+f,+d,+c,+v', '-M', 'no-aliases', o], stdout=subprocess.PIPE, stderr=subprocess.PIPE, text=True)
+        if r.returncode:
+            raise AnalysisBroken('rtasm: objdump of emitted words failed')
+        with open(dis, 'w') as fh:
+            fh.write(r.stdout)
+    out = []
+    with open(dis) as fh:
+        for ln in fh:
+            m = re.match(r'^\s*([0-9a-f]+):\s+((?:[0-9a-f]{2} )+)\s*\t?(.*)$', ln)
+            if not m:
+                continue
+            raw = bytes(int(b, 16) for b in m.group(2).split())
+            rest = m.group(3).strip()
+            i = I()
+            i.addr, i.size, i.raw = int(m.group(1), 16), len(raw), int.from_bytes(raw, 'little')
+            p = rest.split(None, 1)
+            i.mnem = p[0] if p else '<unknown>'
+            opstr = re.sub(r'\s*<[^>]*>\s*$', '', p[1] if len(p) > 1 else '')
+            i.ops = split_ops(opstr)
+            i.text, i.target, i.tsym, i.reloc = rest, None, None, []
+            i.defs, i.uses, i.kind = rv_defuse(i)
+            out.append(i)
+    return out
